@@ -7,7 +7,7 @@ TRUSTED_BASE = [
     "axioms: at most propext, Classical.choice, Quot.sound (audited per theorem with #print axioms on every run); no sorry/admit/native_decide/bv_decide/own axioms (grep on every run)",
     "Mathlib v4.33.0 modules imported by proof files only (Mathlib.Logic.Relation and single tactic/list modules); model files are import-free",
     "the hand-written Lean model of the Rust code (lean/OHVerif/Model) - tied to /repo only by the differential correspondence check run on every invocation",
-    "the correspondence check itself: Rust harness generators and replay mode, the wire encoding/decoding on both sides, catch_unwind, the dispatch of ops to relations in lean/OHVerif/Model/Driver*.lean, and this Python driver; the comparison relations themselves are NOT trusted: each comparator/oracle is proved to decide its specification relation (Props/Comparators, IsoCert, LaxDenote, C15Oracle, Oracles: soundness and, where stated, completeness), except the history comparator runHistoryRen (C09/C11 histories up to the renumbering returned by quotient steps), the C13 witness criteria and the C16 interpreter-log multiset, which are small Boolean functions read by eye",
+    "the correspondence check itself: Rust harness generators and replay mode, the wire encoding/decoding on both sides, catch_unwind, the dispatch of ops to relations in lean/OHVerif/Model/Driver*.lean, and this Python driver; the comparison relations themselves are NOT trusted: each comparator/oracle is proved to decide its specification relation (Props/Comparators, IsoCert, LaxDenote, C15Oracle, Oracles: soundness and, where stated, completeness), except the history comparator runHistoryRen (C09/C11 histories up to the renumbering returned by quotient steps) and the C16 interpreter-log multiset, which are small Boolean functions read by eye (the C13 witness criteria are reflected to Props and shown to accept the model's answer in Props/C13Oracle)",
     "rustc/cargo; usize modelled as unbounded Nat (no overflow above 2^64); Clone/PartialEq on labels as Lean equality",
     "modelled, not verified: std's HashMap and sort; the Rust union-find (rank, path compression, HashMap renumbering) and HashMap sparse_bincount have a line-by-line model proved equal to the canonical-output algorithms the other theorems use (Props/C07UnionFind)",
     "serde/serde_json (C11's JSON clause): the documented text is a model function proved lossless (Props/C11Json); that the derives print it is compared on every case",
@@ -36,7 +36,7 @@ READY = {
     "OHVerif.Props.C12Subst", "OHVerif.Props.C13Native", "OHVerif.Props.C19Sem", "OHVerif.Props.C14Deriv",
     "OHVerif.Props.C14Poly", "OHVerif.Props.C07UnionFind", "OHVerif.Props.IsoCert",
     "OHVerif.Props.C11Json", "OHVerif.Props.C08Iter", "OHVerif.Props.Comparators",
-    "OHVerif.Props.LaxDenote", "OHVerif.Props.C15Oracle", "OHVerif.Props.Oracles",
+    "OHVerif.Props.LaxDenote", "OHVerif.Props.C15Oracle", "OHVerif.Props.Oracles", "OHVerif.Props.C13Oracle",
 }
 
 def _mods(*names):
@@ -50,7 +50,7 @@ PROPS = {
     "C02": dict(modules=_mods("OHVerif.Props.C02", "OHVerif.Props.Oracles"), groups=[("oh", 1500), ("law", 1500), ("lax.cat", 1500)], deps=[("ic", 300), ("ff", 300), ("hg", 300)]),
     "C03": dict(modules=_mods("OHVerif.Props.C03", "OHVerif.Props.IsoCert"), groups=[("law", 4000)], deps=[("oh", 800)]),
     "C04": dict(modules=_mods("OHVerif.Props.C04", "OHVerif.Props.C04Lax", "OHVerif.Props.IsoCert"), groups=[("law", 2500), ("oh", 1500), ("lax.cat", 1000), ("lawlax", 1500)], deps=[]),
-    "C05": dict(modules=_mods("OHVerif.Props.C05", "OHVerif.Props.C12Type", "OHVerif.Props.C14Optic", "OHVerif.Props.Oracles"), groups=[("oh", 1500), ("hg", 1500), ("lax.cat", 800), ("functor", 300), ("dynfunctor", 400), ("optic", 300), ("ic", 1500), ("ff", 600), ("lax.edit", 1500)],
+    "C05": dict(modules=_mods("OHVerif.Props.C05", "OHVerif.Props.C12Type", "OHVerif.Props.C14Optic", "OHVerif.Props.Oracles"), groups=[("oh", 1500), ("hg", 1500), ("lax.cat", 800), ("functor", 300), ("dynfunctor", 400), ("optic", 300), ("ic", 1500), ("ff", 600), ("lax.edit", 1500), ("lax.quot", 1000)],
                 deps=[("ff", 400), ("ic", 400)]),
     "C06": dict(modules=_mods("OHVerif.Props.C06"), groups=[("ff", 3000)], deps=[("prim", 500)]),
     "C07": dict(modules=_mods("OHVerif.Props.C07", "OHVerif.Lemmas.VecBackend", "OHVerif.Props.C07UnionFind", "OHVerif.Props.Comparators"), groups=[("prim", 3000)], deps=[], release=True),
@@ -60,7 +60,7 @@ PROPS = {
     "C11": dict(modules=_mods("OHVerif.Props.C11", "OHVerif.Props.C11Json"), groups=[("lax.edit", 3000), ("lax.cat", 1500)], deps=[],
                 missing=["JSON clause: the documented text format is a model function (Json.render) proved lossless and canonical (parse_render, parse_iff); that serde's derives print exactly this text is decided by correspondence (serde_json itself is outside the model) and the Rust round trip is executed on every case"]),
     "C12": dict(modules=_mods("OHVerif.Props.C12", "OHVerif.Props.C12Type", "OHVerif.Props.C12Subst", "OHVerif.Props.IsoCert", "OHVerif.Props.LaxDenote"), groups=[("dynfunctor", 1500), ("functor", 800)], deps=[("oh", 400), ("ff", 300)]),
-    "C13": dict(modules=_mods("OHVerif.Props.C13", "OHVerif.Props.C13Native", "OHVerif.Props.IsoCert", "OHVerif.Props.LaxDenote"), groups=[("dynfunctor", 2500)], deps=[("lax.cat", 400)]),
+    "C13": dict(modules=_mods("OHVerif.Props.C13", "OHVerif.Props.C13Native", "OHVerif.Props.IsoCert", "OHVerif.Props.LaxDenote", "OHVerif.Props.C13Oracle"), groups=[("dynfunctor", 2500)], deps=[("lax.cat", 400)]),
     "C14": dict(modules=_mods("OHVerif.Props.C14", "OHVerif.Props.C14Optic", "OHVerif.Props.C14Deriv", "OHVerif.Props.C14Poly"), groups=[("optic", 1500)], deps=[("dynfunctor", 300), ("eval", 300)]),
     "C15": dict(modules=_mods("OHVerif.Props.C15", "OHVerif.Lemmas.Kahn", "OHVerif.Props.C15Oracle"), groups=[("graph", 3000)], deps=[("ic", 400), ("prim", 300)]),
     "C16": dict(modules=_mods("OHVerif.Props.C16"), groups=[("eval", 3000)], deps=[("graph", 600)]),
@@ -78,7 +78,7 @@ ONLY = {
     "C02": r"(oh\.tensor|hg\.coproduct|ic\.tensor|ff\.tensor|lax\.tensor|lax\.tensor_assign|law\.tensor_\w+:eq)$",
     "C03": r"law\.(assoc|id_left|id_right|interchange|twist_natural|twist_twist|hexagon|hexagon_mirror)$",
     "C04": r"(oh\.dagger|oh\.spider|oh\.half_spider|lax\.dagger|lax\.spider|law\.dagger_\w+(:eq)?|law\.spider_fusion|law\.lax_spider_fusion|law\.strict_dagger|law\.identity_is_spider|law\.twist_is_spider)$",
-    "C05": r"(lax\.edit|hg\.new|oh\.new|ff\.new|ic\.new_\w+|ic\.from_semifinite_\w+|ic\.ops_new|oh\.\w+|lax\.(from_strict|to_strict|identity|spider|singleton|tensor|compose|lax_compose|twist|dagger|source|target)|functor\.\w+|lax\.functor\.\w+|lax\.optic\.\w+)$",
+    "C05": r"(lax\.edit|lax\.quot|hg\.new|oh\.new|ff\.new|ic\.new_\w+|ic\.from_semifinite_\w+|ic\.ops_new|oh\.\w+|lax\.(from_strict|to_strict|identity|spider|singleton|tensor|compose|lax_compose|twist|dagger|source|target)|functor\.\w+|lax\.functor\.\w+|lax\.optic\.\w+)$",
     "C06": r"ff\.",
     "C07": r"prim\.",
     "C08": r"ic\.",
